@@ -228,9 +228,41 @@ struct World {
     taint: [u8; NA],
     /// (flow id, epoch) -> (sum paid out by single-epoch claims, attribution lost)
     paid_by_epoch: BTreeMap<(u64, u64), (u128, bool)>,
+    /// harness-side weight oracle (independent of the contract's weight history and of the model):
+    /// (actor 1..=5, epoch) -> the live ADDRESS_WEIGHT observed before the first operation of that epoch,
+    /// i.e. the weight in effect for that epoch
+    eff_w: BTreeMap<(usize, u64), u128>,
+    /// last epoch for which `eff_w` is filled
+    obs_epoch: u64,
+    /// epoch -> global weight snapshot as observed while that epoch was current
+    snap_seen: BTreeMap<u64, u128>,
+    /// (flow id, epoch) -> payouts of ALL claims (single- and multi-epoch, first-ever claims included)
+    /// attributed to that epoch from `eff_w` / `snap_seen`
+    paid_all: BTreeMap<(u64, u64), u128>,
     /// native LP the contract was sent without asking for it: the part of an over-paid flow fee that
     /// `open_flow` keeps when the fee denom is the LP denom and the flow asset is a cw20
     lp_donated: u128,
+}
+
+/// longest epoch range the weight oracle is filled / a claim is attributed over in one go
+const ORACLE_SPAN: u64 = 5000;
+
+/// `Uint256::from(emission) * Decimal256::from_ratio(weight, global)` floored to an integer, as the
+/// contract computes a reward; 0 when there is no snapshot
+fn share_of(emission: u128, weight: u128, global: u128) -> u128 {
+    use cosmwasm_std::{Decimal256, Uint256};
+    if global == 0 || weight == 0 || emission == 0 {
+        return 0;
+    }
+    let share = match Decimal256::checked_from_ratio(Uint256::from(weight), Uint256::from(global)) {
+        Ok(s) => s,
+        Err(_) => return u128::MAX,
+    };
+    let r = match Uint256::from(emission).checked_mul(share.atomics()) {
+        Ok(v) => v / Uint256::from(1_000_000_000_000_000_000u128),
+        Err(_) => return u128::MAX,
+    };
+    Uint128::try_from(r).map(|v| v.u128()).unwrap_or(u128::MAX)
 }
 
 fn kind_native(cfg: &Cfg, a: usize) -> bool {
@@ -379,6 +411,10 @@ impl World {
             steps: 0,
             taint: [0; NA],
             paid_by_epoch: BTreeMap::new(),
+            eff_w: BTreeMap::new(),
+            obs_epoch: cfg.e0.saturating_sub(1),
+            snap_seen: BTreeMap::new(),
+            paid_all: BTreeMap::new(),
             lp_donated: 0,
         };
         let fee_info = w.info(cfg.fee_asset);
@@ -944,6 +980,21 @@ impl Incentive {
         }
         // a fresh pre-state (epoch and allowances may have changed what the queries answer)
         let pre = w.observe();
+        // weight oracle: the weight in effect for an epoch is the live address weight before the first
+        // operation of that epoch (epochs without operations inherit it)
+        if op.epoch > w.obs_epoch && op.epoch - w.obs_epoch <= ORACLE_SPAN && pre.aw.len() == 5 {
+            for e in w.obs_epoch + 1..=op.epoch {
+                for i in 1..=5usize {
+                    w.eff_w.insert((i, e), pre.aw[i - 1]);
+                }
+            }
+        }
+        if op.epoch > w.obs_epoch {
+            w.obs_epoch = op.epoch;
+        }
+        if let Some(g) = pre.snap {
+            w.snap_seen.insert(pre.epoch, g);
+        }
         let quoted = if matches!(op.k, OpK::Claim) { Some(w.q_rewards(&sender)) } else { None };
         let recv_s = |r: &Option<usize>| r.map(|i| ACCTS[i].to_string());
         let out: Outcome<()> = {
@@ -1045,6 +1096,9 @@ impl Incentive {
             }
         }
         w.prev = post.clone();
+        if let Some(g) = post.snap {
+            w.snap_seen.insert(post.epoch, g);
+        }
         let line = render(tag, &post);
         // ---------------- bookkeeping used to tag / attribute ----------------
         let mut expand_tag = String::new();
@@ -1077,10 +1131,16 @@ impl Incentive {
                         w.paid_by_epoch.remove(&k);
                     }
                     w.paid_by_epoch.insert((*id, op.epoch), (0, true));
+                    let keys: Vec<(u64, u64)> = w.paid_all.keys().filter(|k| k.0 == *id).cloned().collect();
+                    for k in keys {
+                        w.paid_all.remove(&k);
+                    }
                 }
             }
         }
         let mut epoch_payouts: Vec<(u64, u128, u128)> = vec![]; // (flow, paid so far in this epoch, emission)
+        let mut all_payouts: Vec<(u64, u64, u128, u128)> = vec![]; // (flow, epoch, paid by all claims, emission)
+        let mut unjustified: Vec<(u64, u128, u128)> = vec![]; // (flow, paid, of which not justified by the weights in effect)
         if let (true, OpK::Claim) = (ok, &op.k) {
             let single = last_claim == Some(op.epoch.wrapping_sub(1));
             for f in post.flows.iter() {
@@ -1088,6 +1148,48 @@ impl Incentive {
                 let d = f.claimed.saturating_sub(c0);
                 if d == 0 {
                     continue;
+                }
+                // EVERY claim (also multi-epoch and first-ever ones): attribute what was paid to the epochs
+                // it can be for -- from the flow's start or the claimer's last claim + 1 up to now -- by the
+                // weight in effect and the snapshot the harness observed for each epoch (earliest first);
+                // whatever these do not justify is charged to the last claimable epoch
+                {
+                    let first = last_claim.map(|l| l + 1).unwrap_or(0).max(f.start);
+                    if op.epoch.saturating_sub(first) > ORACLE_SPAN {
+                        mon.stat("claims_all_epochs_range_too_long");
+                    } else {
+                        let mut rest = d;
+                        let mut last_e = None;
+                        let mut touched: Vec<u64> = vec![];
+                        for e in first..=op.epoch {
+                            let cap = f.emission_cap(e);
+                            if cap == 0 {
+                                continue;
+                            }
+                            last_e = Some(e);
+                            let wgt = w.eff_w.get(&(op.sender, e)).cloned().unwrap_or(0);
+                            let g = w.snap_seen.get(&e).cloned().unwrap_or(0);
+                            let due = share_of(cap, wgt, g);
+                            let take = due.min(rest);
+                            if take > 0 {
+                                *w.paid_all.entry((f.id, e)).or_insert(0) += take;
+                                rest -= take;
+                                touched.push(e);
+                            }
+                        }
+                        if rest > 0 {
+                            let e = last_e.unwrap_or(op.epoch);
+                            *w.paid_all.entry((f.id, e)).or_insert(0) += rest;
+                            touched.push(e);
+                            mon.stat("claims_all_epochs_unjustified_rest");
+                        }
+                        unjustified.push((f.id, d, rest));
+                        touched.dedup();
+                        for e in touched {
+                            all_payouts.push((f.id, e, w.paid_all[&(f.id, e)], f.emission_cap(e)));
+                        }
+                        mon.stat(if single { "claims_all_epochs_single" } else { "claims_all_epochs_multi" });
+                    }
                 }
                 if single {
                     let ent = w.paid_by_epoch.entry((f.id, op.epoch)).or_insert((0, false));
@@ -1121,6 +1223,22 @@ impl Incentive {
         for (id, paid, emission) in epoch_payouts {
             mon.check_tag("C13", "shares_le_one", "claims", paid <= emission, || {
                 format!("epoch {}: single-epoch claims on flow {id} add up to {paid} > the epoch's emission {emission}", op.epoch)
+            });
+        }
+        for (id, paid, rest) in unjustified {
+            mon.check_tag("C13", "shares_le_one", "claim_vs_weights_in_effect", rest == 0, || {
+                format!(
+                    "claim by {} in epoch {} was paid {paid} on flow {id}; the weights in effect for the claimed epochs (live address weight before each epoch's first operation) and the observed snapshots justify only {}",
+                    ACCTS[op.sender], op.epoch, paid - rest
+                )
+            });
+        }
+        for (id, e, paid, emission) in all_payouts {
+            mon.check_tag("C13", "shares_le_one", "claims_all_epochs", paid <= emission, || {
+                format!(
+                    "flow {id} epoch {e}: the payouts of all claims attributed to this epoch (weights in effect and snapshots as observed by the harness) add up to {paid} > the epoch's emission {emission} (claim by {} in epoch {})",
+                    ACCTS[op.sender], op.epoch
+                )
             });
         }
         Self::monitors_step(&cfg, op, ok, &pre, &post, quoted, last_claim, &expand_tag, mon);
